@@ -689,6 +689,9 @@ def guarded(f, res, case, *a):
             with G.vctx(case.get("verbose")):
                 f(res, case, *a)
     except Exception as e:      # noqa: BLE001
+        if G.raised_in_harness(e):      # item 21: an exception of the harness's own code (a wrapper, an unpack) is a broken tie, never a violation
+            G.wrapper_trouble(res, "C01", "harness-exception:" + case["kind"], case, "%s: %s" % (type(e).__name__, e))
+            return
         res.fail("constructing / saving on valid input raises", case, "%s: %s" % (type(e).__name__, e), "a screen", signature="C01:raises:" + case["kind"])
 
 
@@ -882,12 +885,16 @@ def entry_point_case(res, case, tmpdir):
         out = os.path.join(tmpdir, "meta.json")
         with G.recording(stage, "Screen") as calls:
             G.run_main(stage, ["--screen", src, "--output", out], verbose)
-        for _, loaded in calls:
-            oracle(res, case, mraw, loaded)
-        meta = G.read_json(out)
+        for c in calls:
+            oracle(res, case, mraw, c.out)
         want = {"size": len(raw["snames"]), "n_plates": len(set(raw["pnames"])), "n_unique_samples": len(set(raw["snames"])),
                 "n_unique_treatments": len(set(c for c in cells if not (c[0] == raw["ctrl"] or c[1] <= 0)))}
-        got = {k: meta.get(k) for k in want}
+        try:
+            meta = G.read_json(out)
+            got = {k: meta[k] for k in want}
+        except Exception as e:      # noqa: BLE001 -- item 20: the key names of the metadata file are knowledge about the current layout
+            G.wrapper_trouble(res, "C01", "layout:metadata-json", case, "%s: %s" % (type(e).__name__, e))
+            return
         if got != want:
             res.fail("extract_screen_metadata: the written counts are not the numbers of rows / distinct plate, sample and non-control treatment ids",
                      case, got, want, signature="C01:entry-point:extract_screen_metadata")
@@ -910,7 +917,14 @@ def entry_point_case(res, case, tmpdir):
             except Exception as e:      # noqa: BLE001 -- e.g. no plate left to hold out: the stage's own contract (C11 / C13), not C01's
                 res.count("entry-point.prepare.raised." + type(e).__name__)
                 return
-        worked_on = calls[0][1]["screen"] if calls and "screen" in calls[0][1] else (calls[0][0][0] if calls else None)
+        worked_on = None
+        try:
+            if calls:
+                worked_on = calls[0].arg("screen")
+            else:
+                res.count("wrapper.not-called.mask_screen")
+        except LookupError as e:        # item 21: the wrapped function is called / declared in a form the harness cannot bind
+            G.wrapper_trouble(res, "C01", "mask_screen", case, e)
         for nm, path in (("training", tr), ("test", te)):
             try:
                 t = Screen.load_h5(path)
